@@ -512,3 +512,148 @@ func init() {
 		},
 	})
 }
+
+func init() {
+	register(&PropDef{ID: "X06", Title: "dev: exec rules", Rules: []func(*Ctx){func(c *Ctx) {
+		ruleLockSet(c, "fast", "IrGlobals", "gls", "lock", "X1-lock-set")
+		ruleSpinLock(c, "X2-spinlock")
+		ruleGoidGate(c, "X3-goid-gate")
+		ruleRecoverGuards(c, "X4-recover-guards")
+		ruleDeferProtocol(c, "X5-defer-protocol")
+		ruleSaveRestore(c, "X6-save-restore")
+		ruleInterruptPolling(c, "X7-interrupt-polling")
+		for _, f := range []string{"goid", "PanicFun", "DeferOfFun", "Panic", "ExecFlags", "DebugDepth", "InstallDefer", "Interrupt", "CurrEnv"} {
+			ruleOwnership(c, "O-"+f, "fast", "Run", f, nil, "")
+		}
+	}}})
+}
+
+// ---------------------------------------------------------------- C07 C10 C12 C13 C33
+
+func runStateOwnership(c *Ctx) {
+	ruleOwnership(c, "O-run-state", "fast", "Run", "PanicFun", []string{"fast.pushDefer", "fast.callRecover"}, "set when a deferred call starts while panicking, cleared by a successful recover")
+	ruleOwnership(c, "O-run-state", "fast", "Run", "Panic", []string{"fast.reExecWithFlags", "fast.callRecover"}, "captured by rundefer, consumed by recover")
+	ruleOwnership(c, "O-run-state", "fast", "Run", "DeferOfFun", []string{"fast.pushDefer", "fast.popDefer"}, "maintained by the push/pop pair only")
+	ruleOwnership(c, "O-run-state", "fast", "Run", "InstallDefer", []string{"fast.Comp.Defer", "fast.reExecWithFlags"}, "written by the defer statement, consumed by the executor")
+	ruleOwnership(c, "O-run-state", "fast", "Run", "Interrupt", []string{"fast.exec", "fast.reExecWithFlags", "fast.restore"}, "the trampoline statement belongs to the executor")
+	ruleOwnership(c, "O-run-state", "fast", "Run", "CurrEnv", []string{"fast.Env.FreeEnv", "fast.Env.freeEnv4Func", "fast.NewEnv", "fast.newEnv4Func", "fast.Run.setCurrEnv", "fast.restore"}, "the call stack top is moved by frame allocation/release and restored by restore/setCurrEnv")
+	ruleOwnership(c, "O-run-state", "fast", "Run", "DebugDepth", []string{"fast.Run.applyDebugOp"}, "debugger only")
+}
+
+func init() {
+	register(&PropDef{
+		ID:    "C07",
+		Title: "defer, panic and recover follow Go semantics in interpreted code",
+		Explanation: "Decided: X4 in callRecover the panic value is read and consumed only after three early returns (not directly inside a deferred call; no panic in progress; the deferred call belongs to another frame than the panicking one), each a disjunct of its condition, and a successful recover clears Panic and PanicFun; " +
+			"X5 rundefer runs the deferred function between pushDefer and a popDefer registered with Go's defer and re-raises through maybeRepanic only while panicking; every installed function is taken from run.InstallDefer once and registered with Go's own defer (LIFO order and execution during panics are then Go's); Comp.Defer evaluates the function value and arguments when the statement executes, copies them when settable, never inside the installed closure; code with defer selects the flag-aware executor; " +
+			"X6 pushDefer/popDefer save and restore DeferOfFun and the defer flag position by position; O ownership of Run.PanicFun/Panic/DeferOfFun/InstallDefer; S1 statement protocol of the defer/return statements. " +
+			"Not decided: event-by-event order for nested panics, modification of named results.",
+		Assumptions: []string{"Go's own defer/recover for the closures registered with defer", "reflect.Value.Call"},
+		Rules: []func(*Ctx){func(c *Ctx) {
+			ruleRecoverGuards(c, "X4-recover-guards")
+			ruleDeferProtocol(c, "X5-defer-protocol")
+			ruleSaveRestore(c, "X6-save-restore")
+			runStateOwnership(c)
+			ruleStmtProtocol(c, "fast", []string{"statement.go", "code.go", "builtin.go"}, "S1-stmt-protocol")
+		}},
+		Mutants: []Mutant{
+			{Name: "recover-frame-check-behind-debug", File: "fast/builtin.go", Old: "\tif run.DeferOfFun != run.PanicFun {\n\t\tif debug {", New: "\tif debug && run.DeferOfFun != run.PanicFun {\n\t\tif debug {", Canary: true},
+			{Name: "recover-outside-defer-allowed", File: "fast/builtin.go", Old: "\tif !run.ExecFlags.IsDefer() {\n\t\tif debug {\n\t\t\toutput.Debugf(\"recover() not directly inside a defer\")\n\t\t}\n\t\treturn nilInterface\n\t}\n", New: ""},
+			{Name: "recover-does-not-consume", File: "fast/builtin.go", Old: "\trun.Panic = nil\n\trun.PanicFun = nil\n\treturn v", New: "\trun.Panic = nil\n\treturn v"},
+			{Name: "pushdefer-returns-new-frame", File: "fast/code.go", Old: "return g, deferOf_, g.ExecFlags.IsDefer()", New: "return g, deferOf, g.ExecFlags.IsDefer()", Canary: true},
+			{Name: "popdefer-not-deferred", File: "fast/code.go", Old: "\t\tdefer popDefer(pushDefer(run, funenv, panicking))\n\t\tpanicking2 = true // detect panics inside defer\n\t\tfun()\n\t\tpanicking2 = false\n", New: "\t\tg0, d0, i0 := pushDefer(run, funenv, panicking)\n\t\tpanicking2 = true // detect panics inside defer\n\t\tfun()\n\t\tpanicking2 = false\n\t\tpopDefer(g0, d0, i0)\n"},
+			{Name: "repanic-unconditional", File: "fast/code.go", Old: "\t\tif panicking {\n\t\t\tpanicking = maybeRepanic(run)\n\t\t}", New: "\t\tpanicking = maybeRepanic(run)"},
+			{Name: "defer-callee-not-copied", File: "fast/statement.go", Old: "\t\tf := fun(env)\n\t\tif f.CanSet() {\n\t\t\tf = f.Convert(f.Type()) // make a copy\n\t\t}\n", New: "\t\tf := fun(env)\n"},
+			{Name: "defer-args-evaluated-late", File: "fast/statement.go", Old: "\t\t\trun.InstallDefer = func() {\n\t\t\t\tf.Call(args)\n\t\t\t}", New: "\t\t\trun.InstallDefer = func() {\n\t\t\t\tfun(env).Call(args)\n\t\t\t}"},
+		},
+	})
+	register(&PropDef{
+		ID:    "C12",
+		Title: "A panic escaping an evaluation at any point leaves later evaluations unaffected",
+		Explanation: "Decided: X6 save/restore correspondence: reExecWithFlags registers `defer restore(run, IsDefer(), run.Interrupt, run.CurrEnv)` before it modifies any of them, with each argument a read at entry of exactly the state restore writes back from the matching parameter; restore also clears the synchronous signal; pushDefer/popDefer correspond position by position and popDefer is registered with defer (X5), maybeRepanic is guarded by the frame's own panicking flag; " +
+			"RunExpr/DebugExpr wrap the evaluation in `defer run.setCurrEnv(run.setCurrEnv(env))`; every executor entry clears a stale synchronous signal and prepareEnv clears both signals before each evaluation; O ownership: PanicFun, Panic, DeferOfFun, InstallDefer, Interrupt, CurrEnv, DebugDepth are written only by the enumerated executor/allocator/debugger functions. " +
+			"Not decided: state held outside Run (frames of an unwound exec are simply dropped), side effects of the aborted code, option bits toggled by the REPL driver.",
+		Assumptions: []string{"Go runs deferred calls during panics"},
+		Rules: []func(*Ctx){func(c *Ctx) {
+			ruleSaveRestore(c, "X6-save-restore")
+			ruleDeferProtocol(c, "X5-defer-protocol")
+			runStateOwnership(c)
+		}},
+		Mutants: []Mutant{
+			{Name: "restore-saves-after-modification", File: "fast/code.go", Old: "\tdefer restore(run, run.ExecFlags.IsDefer(), run.Interrupt, caller)\n\tef.SetDefer(ef.StartDefer())\n", New: "\tef.SetDefer(ef.StartDefer())\n\tdefer restore(run, run.ExecFlags.IsDefer(), run.Interrupt, caller)\n", Canary: true},
+			{Name: "restore-drops-currenv", File: "fast/code.go", Old: "\trun.Interrupt = interrupt\n\trun.CurrEnv = caller\n", New: "\trun.Interrupt = interrupt\n"},
+			{Name: "runexpr-currenv-not-deferred", File: "fast/repl.go", Old: "\tdefer run.setCurrEnv(run.setCurrEnv(env))\n\n\tfun := e.AsXV(COptKeepUntyped)\n\tv, vs := fun(env)\n\treturn reflect.PackValues", New: "\told := run.setCurrEnv(env)\n\n\tfun := e.AsXV(COptKeepUntyped)\n\tv, vs := fun(env)\n\trun.setCurrEnv(old)\n\treturn reflect.PackValues", Canary: true},
+			{Name: "prepareenv-keeps-async", File: "fast/repl.go", Old: "\tg.Signals.Sync = base.SigNone\n\tg.Signals.Async = base.SigNone\n", New: "\tg.Signals.Sync = base.SigNone\n"},
+			{Name: "new-panicfun-writer", File: "fast/code.go", Old: "\trun.Signals.Sync = base.SigNone\n\tif sig := run.Signals.Async; sig == base.SigInterrupt {", New: "\trun.Signals.Sync = base.SigNone\n\trun.PanicFun = caller\n\tif sig := run.Signals.Async; sig == base.SigInterrupt {"},
+			{Name: "repanic-unconditional", File: "fast/code.go", Old: "\t\tif panicking {\n\t\t\tpanicking = maybeRepanic(run)\n\t\t}", New: "\t\tpanicking = maybeRepanic(run)"},
+		},
+	})
+	register(&PropDef{
+		ID:    "C13",
+		Title: "Interrupting running code stops it promptly and leaves the interpreter usable",
+		Explanation: "Decided: X7 poll bound: in exec and reExecWithFlags every loop that dispatches statements reads run.Signals on every iteration, and the number of statement dispatches between two polls is a constant computed and reported by the checker (15 today; the rule requires <= 64); before the unbounded loop run.Interrupt is spinInterrupt so jumping statements come back to the poll; Interp.Interrupt reaches a store to Signals.Async; the signal is SigInterrupt unless both debugger options are set; " +
+			"applyAsyncSignal consumes the signal and panics with SigInterrupt; restore re-raises a pending interrupt in the caller; spinInterrupt applies pending asynchronous signals; X6 restore/prepareEnv leave Run clean for the next evaluation (shared with C12). " +
+			"Not decided: latency in wall-clock terms, code blocked inside compiled functions or channel operations.",
+		Assumptions: []string{"every statement closure returns in bounded time unless it calls compiled code"},
+		Rules: []func(*Ctx){func(c *Ctx) {
+			ruleInterruptPolling(c, "X7-interrupt-polling")
+			ruleSaveRestore(c, "X6-save-restore")
+		}},
+		Mutants: []Mutant{
+			{Name: "unbounded-loop-never-polls", File: "fast/code.go", Old: "\t\t\tstmt, env = stmt(env)\n\n\t\t\tif !run.Signals.IsEmpty() {\n\t\t\t\tbreak\n\t\t\t}\n", New: "\t\t\tstmt, env = stmt(env)\n\n\t\t\tif stmt == nil {\n\t\t\t\tbreak\n\t\t\t}\n", Canary: true},
+			{Name: "interrupt-not-stored", File: "fast/code.go", Old: "\trun.Signals.Async = sig\n}", New: "\t_ = sig\n}", Canary: true},
+			{Name: "async-signal-ignored", File: "fast/code.go", Old: "\tdefault:\n\t\tpanic(base.SigInterrupt)\n", New: "\tdefault:\n\t\tbreak\n"},
+			{Name: "restore-drops-pending-interrupt", File: "fast/code.go", Old: "\tif sig := run.Signals.Async; sig == base.SigInterrupt {\n\t\t// do NOT handle async SigDebug here\n\t\trun.applyAsyncSignal(sig)\n\t}\n", New: ""},
+			{Name: "ctrl-c-always-debugger", File: "fast/code.go", Old: "if run.Options&CtrlCDebug == CtrlCDebug {", New: "if run.Options&CtrlCDebug != 0 {"},
+		},
+	})
+	register(&PropDef{
+		ID:    "C33",
+		Title: "Goroutine identity and per-goroutine runtime state are never shared",
+		Explanation: "Decided: X3 in newEnv4Func the frame pool is reached only through the record selected by `if run.goid != goid { run = run.getRun4Goid(goid) }` with goid = gls.GoID() read in the same call, the new frame is tagged with that record and becomes its CurrEnv; getRun4Goid registers the record it creates; Comp.Go creates the goroutine's record with its own id, registers it and unregisters it with defer; " +
+			"X1 lock set: every access of IrGlobals.gls lies between lock.Lock() and lock.Unlock() of the same object; X2 SpinLock.Lock returns only after a successful CompareAndSwapInt32(s,0,1); O ownership: Run.goid is written only where a record is created, Run.Pool/PoolSize only by the allocator; U every interpreted function body obtains its frame with newEnv4Func (sibling uniformity of func*ret*.go). " +
+			"Not decided: uniqueness of GoID among live goroutines (assembly, trusted), schedules.",
+		Assumptions: []string{"gls.GoID returns a value unique among live goroutines", "sync/atomic semantics"},
+		Rules: []func(*Ctx){func(c *Ctx) {
+			ruleGoidGate(c, "X3-goid-gate")
+			ruleLockSet(c, "fast", "IrGlobals", "gls", "lock", "X1-lock-set")
+			ruleSpinLock(c, "X2-spinlock")
+			ruleOwnership(c, "O-goid-owner", "fast", "Run", "goid", []string{"fast.Run.new#lit", "fast.newTopInterp#lit"}, "a record's goroutine id is fixed when the record is created")
+			poolOwnership(c)
+			ruleUniformity(c, "fast", []string{"func0ret0.go", "func0ret1.go", "func1ret0.go", "func1ret1.go", "func2ret0.go", "function.go"}, "U-uniform")
+			c.Floor("U-uniform", 700)
+			c.Floor("X1-lock-set", 3)
+		}},
+		ThoroughConfigs: []string{"linux/386", "linux/arm64", "darwin/amd64"},
+		Mutants: []Mutant{
+			{Name: "frame-tagged-with-declaring-goroutine", File: "fast/compile.go", Old: "\t\tenv.Outer = outer\n\t\tenv.Run = run\n\t\tenv.FileEnv = outer.FileEnv\n\t}\n\tenv.DebugComp = debugComp", New: "\t\tenv.Outer = outer\n\t\tenv.Run = outer.Run\n\t\tenv.FileEnv = outer.FileEnv\n\t}\n\tenv.DebugComp = debugComp", Canary: true},
+			{Name: "gate-removed", File: "fast/compile.go", Old: "\tif run.goid != goid {\n\t\t// no luck... get the correct ThreadGlobals for goid\n\t\trun = run.getRun4Goid(goid)\n\t}\n", New: "\t_ = goid\n"},
+			{Name: "gls-read-unlocked", File: "fast/compile.go", Old: "\tg.lock.Lock()\n\tret := g.gls[goid]\n\tg.lock.Unlock()\n", New: "\tret := g.gls[goid]\n", Canary: true},
+			{Name: "spinlock-blind-store", File: "atomic/spinlock.go", Old: "\tfor !atomic.CompareAndSwapInt32((*int32)(s), 0, 1) {\n\t\truntime.Gosched()\n\t}\n", New: "\tfor atomic.LoadInt32((*int32)(s)) != 0 {\n\t\truntime.Gosched()\n\t}\n\tatomic.StoreInt32((*int32)(s), 1)\n"},
+			{Name: "goroutine-record-not-unregistered", File: "fast/statement.go", Old: "\t\t\ttg2.glsStore()\n\t\t\tdefer tg2.glsDel()\n", New: "\t\t\ttg2.glsStore()\n"},
+			{Name: "one-signature-uses-newenv", File: "fast/func1ret1.go", Old: "env := newEnv4Func(env, nbind, nintbind, debugC)", New: "env := NewEnv(env, nbind, nintbind)", Nth: 77},
+		},
+	})
+	register(&PropDef{
+		ID:    "C10",
+		Title: "Interpreted goroutines and channels behave as Go permits on every schedule",
+		Explanation: "Decided (the race-freedom clause for the interpreter's own shared state, a necessary condition on every schedule): X1 lock set on IrGlobals.gls; X2 SpinLock; X3 Comp.Go evaluates the function value and the arguments in the caller's goroutine before the go statement, the goroutine creates, registers and unregisters (by defer) its own Run record, and newEnv4Func never touches another goroutine's frame pool; " +
+			"U sibling uniformity, S1 statement protocol and A2 accessor category over the channel specialisations (Send, Recv, select) in channel.go / select.go. " +
+			"Not decided: every schedule-dependent outcome, races inside user data, channel semantics (delegated to reflect.Send/Recv/Select).",
+		Assumptions: []string{"reflect.Value.Send/Recv/Select implement Go's channel semantics", "sync/atomic semantics"},
+		Rules: []func(*Ctx){func(c *Ctx) {
+			ruleLockSet(c, "fast", "IrGlobals", "gls", "lock", "X1-lock-set")
+			ruleSpinLock(c, "X2-spinlock")
+			ruleGoidGate(c, "X3-goid-gate")
+			ruleUniformity(c, "fast", []string{"channel.go", "select.go"}, "U-uniform")
+			ruleStmtProtocol(c, "fast", []string{"channel.go", "select.go", "statement.go"}, "S1-stmt-protocol")
+			ruleAccessorFiles(c, "fast", []string{"channel.go", "select.go"}, "A2-accessor")
+			c.Floor("U-uniform", 80)
+		}},
+		Mutants: []Mutant{
+			{Name: "go-args-evaluated-in-goroutine", File: "fast/statement.go", Old: "\t\t\tfunv.Call(argv)\n\t\t}()", New: "\t\t\tfunv.Call(append(argv[:0:0], exprfun(env2)))\n\t\t}()", Canary: true},
+			{Name: "gls-delete-unlocked", File: "fast/compile.go", Old: "\tg.lock.Lock()\n\tdelete(g.gls, goid)\n\tg.lock.Unlock()\n", New: "\tdelete(g.gls, goid)\n", Canary: true},
+			{Name: "send-int16-uses-other-channel-type", File: "fast/channel.go", Old: "(chan<- int16)", New: "(chan<- int32)", Nth: 1},
+		},
+	})
+}
